@@ -818,7 +818,8 @@ def _to_c_expr(
                     if owner_node.id in serials:
                         if emit_mode in {"both", "mcu"}:
                             return "Serial.readStringUntil('\\n')"
-                        return ''
+                        # a host-only read has no device side: its value on the MCU is the empty string
+                        return 'String("")'
                 raise ValueError("unsupported attribute call")
 
             if attr == "read_us":
